@@ -136,7 +136,9 @@ func (l *LLC) SerializeTo(b gopacket.SerializeBuffer, opts gopacket.SerializeOpt
 	var igFlag, crFlag byte
 	var length int
 
-	if l.Control&0xFF00 != 0 {
+	// only the unnumbered format (low two bits set) has a one-octet control
+	// field; information and supervisory formats always use two octets
+	if l.Control&0xFF00 != 0 || l.Control&0x3 != 0x3 {
 		length = 4
 	} else {
 		length = 3
